@@ -244,7 +244,9 @@ def _schedule(args):
             if ev["step"] in STEP_LABEL and lab != STEP_LABEL[ev["step"]]:
                 o, e = wr.finish()
                 wr.dead = True
-                viol.append(("machinery: writer reported %s, schedule %s expected %s; stderr: %s" % (lab, _fmt(sched), STEP_LABEL[ev["step"]], e[-600:]), {}))
+                # the writer left the protocol of the specification (it finished or failed before the step)
+                viol.append(("schedule %s: writer %s did not perform step %s (it reported %r; its output: %s %s)" % (
+                    _fmt(sched), w, ev["step"], lab, o.strip()[-200:], e.strip()[-200:]), dict(schedule=sched)))
                 break
         # let every live writer run to completion
         for w, wr in ws.items():
